@@ -86,6 +86,24 @@ def seq_write_write(k):
     return A.arr
 
 
+def rows_from_reads_then_write(k):
+    src = k.ar.Array([k.ar.Array(cells(k, 2, True, "a")), k.ar.Array(cells(k, 2, True, "b"))])
+    m = k.ar.Array([src[k.S("p")], src[1 - k.S("p")]])        # rows obtained by secret-index reads (ArrayRow objects)
+    m[0, k.S("j")] = k.S("y")                                  # constant row, secret column
+    m[1, 0] = 77                                               # constant row, constant column
+    return [[m[0, 0], m[0, 1]], [m[1, 0], m[1, 1]]]
+
+
+def ref_rows_from_reads(k):
+    p, j, y = k.v("p"), k.v("j"), k.v("y")
+    rows = [[k.v("a0"), k.v("a1")], [k.v("b0"), k.v("b1")]]
+    r0 = [sel(p, [rows[0][c], rows[1][c]]) for c in range(2)]
+    r1 = [sel(1 - p, [rows[0][c], rows[1][c]]) for c in range(2)]
+    r0 = upd(j, r0, y)
+    r1 = [77, r1[1]]
+    return [r0, r1]
+
+
 def seq_wrw(k):
     A = k.ar.Array(cells(k, 2, True))
     A[k.S("i")] = k.S("y")
@@ -128,6 +146,8 @@ def build(n=4, tier="quick"):
     add("seq_write_write", seq_write_write, ("a0", "a1", "i", "y", "j", "z"),
         lambda k: upd(k.v("j"), upd(k.v("i"), cvals(k, 2, True), k.v("y")), k.v("z")),
         lambda k: inrange(k.v("i"), 2) & inrange(k.v("j"), 2), {"seq"})
+    add("rows_from_reads_then_write", rows_from_reads_then_write, ("a0", "a1", "b0", "b1", "p", "j", "y"), ref_rows_from_reads,
+        lambda k: inrange(k.v("p"), 2) & inrange(k.v("j"), 2), {"seq", "2d"})
     if tier != "quick":
         add("seq_write_read_write", seq_wrw, ("a0", "a1", "i", "y", "j"),
             lambda k: upd(k.v("i"), upd(k.v("i"), cvals(k, 2, True), k.v("y")),
